@@ -253,7 +253,16 @@ func genECIES(r *hx.Rng, suite string) string {
 		}
 		return c2[np : np+nh]
 	}
-	muts := genMuts(r, tc, info, np, nh, func() []byte { return validScalar(r, curve) }, otherHeader)
+	// one ECIES line in six carries the negated private key n-d: ECIES does not bind the
+	// recipient public key, the DEM key depends on the ECDH x coordinate only, so Decrypt
+	// accepts (known finding "ecies negated private key accepted"; theorem
+	// C06_ecies_other_private_key_same_dh_decrypts).  Not on every line: a line reported
+	// under a known finding is left out of the correspondence count.
+	var negKey []byte
+	if r.Chance(17) {
+		negKey = negScalar(curve, sk)
+	}
+	muts := genMuts(r, tc, info, np, nh, func() []byte { return validScalar(r, curve) }, otherHeader, negKey)
 	return fmt.Sprintf("C06|E|%s|%d|%s|%s|%s|%s|%s|%s|%s|!|%s|%s|%s|%s", suite, id, hx.H(sk), hx.H(salt), hx.H(info), hx.H(pt),
 		hx.H(tc), hx.H(eph), hx.H(iv), hx.H(ft), hx.H(fephB), hx.H(fiv), muts)
 }
